@@ -320,7 +320,7 @@ def check(prog, res, tier):
             seen_rows['n'], 'a row handed to the CSV writer (writerow / writerows)'))
 
     # ---- C20.a the command-line glue of the two CSV tools
-    from .tools import cli_glue_ob
+    from .tools import cli_glue_ob, cli_argv_ob
     csv_default = {}
     for mod, tool, ip, op_, im, om, opts, tenc in (
             ('cli.mci_csv_to_ipm', 'mci_csv_to_ipm', 'in_csv', 'out_ipm', 'r', 'wb', ('out_encoding',), ('input', 'in_encoding', csv_default)),
@@ -328,6 +328,13 @@ def check(prog, res, tier):
         ob = cli_glue_ob(prog, res, 'C20.a', mod, tool, ip, op_, im, om, passthrough=opts, text_encoding=tenc)
         if ob is not None:
             res.add(ob)
+        ob = cli_argv_ob(prog, res, 'C20.a', mod, tool, ip, op_, im, om, passthrough=opts, text_encoding=tenc)
+        if ob is not None:
+            res.add(ob)
+    from .tools import cli_argv_io_ob
+    ob = cli_argv_io_ob(prog, res, 'C20.a', 'cli.mideu', command='extract', out_flags=('--csvoutputfile',))
+    if ob is not None:
+        res.add(ob)
     if len(csv_default) == 2:
         # siblings: with no encoding option the csv is written by one tool with the encoding the other reads it with
         obd = Ob('C20.a', 'without an encoding option, mci_ipm_to_csv writes the csv text with the encoding mci_csv_to_ipm reads it with',
